@@ -9,6 +9,7 @@ package h_c17
 import (
 	"encoding/json"
 	"fmt"
+	yaml "gopkg.in/yaml.v2"
 	"os"
 	"path/filepath"
 	"reflect"
@@ -1009,6 +1010,77 @@ func runDiscardDefault(out *hutil.Out) {
 	}
 }
 
+// several pools, each with its own discard_overflow setting (absent / false / true): the default is
+// filled in per pool.
+func runDiscardMulti(out *hutil.Out) {
+	text := bases["http-uri-phout"]
+	var doc map[string]any
+	if err := yaml.Unmarshal([]byte(text), &doc); err != nil {
+		out.HarnessErr = "discard-multi: " + err.Error()
+		return
+	}
+	pools, _ := doc["pools"].([]any)
+	if len(pools) == 0 {
+		out.HarnessErr = "discard-multi: base has no pools"
+		return
+	}
+	variants := []string{"absent", "false", "true"}
+	for n := 2; n <= 3; n++ {
+		total := 1
+		for i := 0; i < n; i++ {
+			total *= 3
+		}
+		for code := 0; code < total; code++ {
+			var ps []any
+			var sel []string
+			c := code
+			for i := 0; i < n; i++ {
+				v := variants[c%3]
+				c /= 3
+				sel = append(sel, v)
+				pm := map[any]any{}
+				for k, v := range pools[0].(map[any]any) {
+					pm[k] = v
+				}
+				pm["id"] = fmt.Sprintf("p%d", i+1)
+				delete(pm, "discard_overflow")
+				if v != "absent" {
+					pm["discard_overflow"] = v == "true"
+				}
+				ps = append(ps, pm)
+			}
+			d2 := map[string]any{}
+			for k, v := range doc {
+				d2[k] = v
+			}
+			d2["pools"] = ps
+			b, err := yaml.Marshal(d2)
+			if err != nil {
+				out.HarnessErr = "discard-multi: " + err.Error()
+				return
+			}
+			f := filepath.Join(".", "zv_c17_conf.yaml")
+			_ = os.WriteFile(f, b, 0o644)
+			out.Evals++
+			out.Cells++
+			conf := cli.ZvReadConfig([]string{f})
+			if len(conf.Engine.Pools) != n {
+				out.Violate("C17|discard_overflow|multi|pools", fmt.Sprintf("%d pools configured, %d decoded", n, len(conf.Engine.Pools)), map[string]any{"tier": "discard-multi", "sel": sel})
+				continue
+			}
+			for i, p := range conf.Engine.Pools {
+				out.States++
+				want := sel[i] != "false"
+				if p.DiscardOverflow != want {
+					out.Violate("C17|discard_overflow|multi|"+sel[i], fmt.Sprintf("pools with discard_overflow %v: pool %d decoded as %v (documented: on when absent, else as written)", sel, i+1, p.DiscardOverflow),
+						map[string]any{"tier": "discard-multi", "sel": sel})
+				}
+			}
+			out.Outcome("discard-multi", fmt.Sprint(sel))
+		}
+	}
+}
+
 func TestWorker(t *testing.T) {
 	spec, out := hutil.Load()
 	if spec == nil {
@@ -1062,6 +1134,7 @@ func TestWorker(t *testing.T) {
 		if rp.Tier != "" {
 			runDefaults(out)
 			runDiscardDefault(out)
+			runDiscardMulti(out)
 			return
 		}
 		for _, j := range jobs {
@@ -1104,6 +1177,7 @@ func TestWorker(t *testing.T) {
 	if spec.Worker == 0 {
 		runDefaults(out)
 		runDiscardDefault(out)
+		runDiscardMulti(out)
 		_ = os.Remove("zv_c17_conf.yaml")
 	}
 }
